@@ -35,11 +35,17 @@ class StrSub(str):
     pass
 
 
+# genuine namedtuple classes to derive from: a subclass inherits _fields / _make / _asdict and is a
+# namedtuple class unless it overrides one of them with something that disqualifies it
+NTBase = collections.namedtuple('NTBase', 'a b')
+NTChild = type('NTChild', (NTBase,), {})
+
+
 def make_class(spec, idx):
     """spec: dict of knobs -> a class (or a non-class)"""
     if spec['nonclass']:
         return [42, 'x', None, (1, 2), collections.namedtuple('Inst', 'a')(1)][idx % 5]
-    base = {0: object, 1: tuple, 2: TupSub, 3: list}[spec['base']]
+    base = {0: object, 1: tuple, 2: TupSub, 3: list, 4: NTBase, 5: NTChild, 6: NTBase}[spec['base']]
     ns = {}
     f = spec['fields']
     if f == 1:
@@ -69,6 +75,10 @@ def make_class(spec, idx):
             ns[name] = True
         elif k == 3:
             ns[name] = 'two'
+    if spec['base'] == 6:
+        # the overriding traits come from a mixin listed BEFORE the genuine namedtuple base
+        mixin = type(f'Mixin{idx}', (), ns)
+        return type(f'Gen{idx}', (mixin, base), {})
     return type(f'Gen{idx}', (base,), ns)
 
 
@@ -104,7 +114,7 @@ def class_universe(rng, n):
              collections.OrderedDict, collections.deque]
     for c in reals:
         out.append(c)
-    knobs = dict(nonclass=[0] * 15 + [1], base=[0, 1, 1, 1, 2, 3], fields=[0, 1, 1, 1, 2, 3, 4, 5, 6],
+    knobs = dict(nonclass=[0] * 15 + [1], base=[0, 1, 1, 1, 2, 3, 4, 4, 5, 6], fields=[0, 1, 1, 1, 2, 3, 4, 5, 6],
                  make=[0, 1, 1, 2], asdict=[0, 1, 1, 2], nf=[0, 0, 1, 2, 3], nsf=[0, 0, 1, 2, 3], nuf=[0, 0, 1, 2, 3])
     for i in range(n):
         spec = {k: rng.choice(v) for k, v in knobs.items()}
@@ -118,6 +128,17 @@ def class_universe(rng, n):
             spec[k] = v
             i += 1
             out.append(make_class(spec, i))
+    # subclasses of a genuine namedtuple class (directly, as a grandchild, through a mixin listed first)
+    # overriding one trait at a time
+    for b in (4, 5, 6):
+        for k, vals in knobs.items():
+            if k in ('nonclass', 'base'):
+                continue
+            for v in set(vals):
+                spec = dict(nonclass=0, base=b, fields=0, make=0, asdict=0, nf=0, nsf=0, nuf=0)
+                spec[k] = v
+                i += 1
+                out.append(make_class(spec, i))
     return out
 
 
